@@ -113,7 +113,7 @@ Qed.
    SHORT-NAME entry in 00045, create_sub_element makes it.  Model 1 / file f1 in AUTOSAR_00046 (bit 8192) with the same chain down to
    LOG-AND-TRACE-INSTANTIATION.  create_copied_sub_element(LOG-AND-TRACE-INSTANTIATION of model 1, NETWORK-CONFIGURATIONS of model 0)
    succeeds; below the copy hangs an ETHERNET-NETWORK-CONFIGURATION whose type IS identifiable in 00046 and whose content is empty.
-   The check added by fix f5f3361 looks at the top element of the copy only; creating the same element through
+   The check added by fix a8ba45e looks at the top element of the copy only; creating the same element through
    create_sub_element in the target file is refused (ItemNameRequired). *)
 Definition unnamed_ops : list op :=
   [OpNewModel; OpCreateFile 0 [102; 48] 4096; OpCreateSub 0 5413; OpCreateNamed 1 5250 [110; 49]; OpCreateSub 2 3929;
@@ -153,7 +153,7 @@ Qed.
    every name, the SHORT-NAME is not protected.  create_sub_element_at(.., CONFIG-ELEMENT-DEF-GLOBAL-REF, 0) succeeds; the
    child list [CONFIG-ELEMENT-DEF-GLOBAL-REF; SHORT-NAME] IS in specification order (Mixed: any order), but item_name, which
    reads the first content item, now answers None while the path index still holds /n1/n3/n5/n7/n10, and (since loader fix
-   44e5d22) the saved file re-loads with RequiredSubelementMissing.  So for the one mixed+named type "SHORT-NAME first" is
+   f86b268) the saved file re-loads with RequiredSubelementMissing.  So for the one mixed+named type "SHORT-NAME first" is
    NOT part of specification order; Tree/ProjectCanon.v NodeCanonAt asks for it separately (checked by world_checkb). *)
 Definition front_ops : list op :=
   [OpNewModel; OpCreateFile 0 [102; 48] 1; OpCreateSub 0 5413; OpCreateNamed 1 5250 [110; 49]; OpCreateSub 2 3929;
